@@ -1,4 +1,5 @@
 """C14 — layout is invisible."""
+import itertools
 import random
 import re
 
@@ -45,14 +46,120 @@ def units(tier):
     specs, _ = small_specs(tier, rng, nrand_quick=60, nrand_thorough=800, chains_quick=20, chains_thorough=300,
                            fixed_quick=100, fixed_thorough=1500, overlap_rate=0)
     specs = [s for s in specs if all(k == "str" and len(v) == 1 for k, v in s.terms.values())]
-    return [{"specs": [s.to_json() for s in ch], "seed": seed() * 1000 + i, "maxtok": 4 if tier == "quick" else 5}
-            for i, ch in enumerate(chunks(specs, 40))]
+    us = [{"specs": [s.to_json() for s in ch], "seed": seed() * 1000 + i, "maxtok": 4 if tier == "quick" else 5}
+          for i, ch in enumerate(chunks(specs, 160))]
+    us.append({"kind": "custom-ws", "seed": seed()})
+    return us[::-1]       # the seeded random grammars (slowest GLR parses) first
+
+
+# ws parameters made of characters that are special elsewhere (regex classes, escapes, ranges)
+CUSTOM_WS = [" \t\\\n", " -_", "_- ", "^ ", " ^", "] ", " [", "\\", ".", " .*+?", "a-c ", "\t|", " \r\n\t\f\v", "()", "{}$"]
+CUSTOM_GRAMMARS = ['S: "x" S | "y";', 'S: "(" S ")" | "x";', 'S: S "+" S | "x" | "yy";', 'S: "ab" "b"* "a"?;']
+
+
+def run_custom_ws(u, res):
+    """`ws` is a set of characters, whatever the characters are: the skip table of the implementation is
+    the model's for every ws string, and sentences stay sentences when ws characters are put between tokens."""
+    st = res["stats"]
+    rng = random.Random(u["seed"])
+    alphabet = "xy()+ab \t\n\\-_^].*|[?{}$c\r"
+    for gtxt in CUSTOM_GRAMMARS:
+        g = Grammar.from_string(gtxt)
+        num = Numbering(g)
+        toks = sorted({t.recognizer.value for t in g.terminals.values() if hasattr(t.recognizer, "value")})
+        for ws in CUSTOM_WS:
+            fill = [c for c in ws if c not in "".join(toks)]
+            if not fill:
+                continue
+            for kind in ("LR", "GLR"):
+                try:
+                    p = Parser(g, ws=ws, build_tree=True) if kind == "LR" else GLRParser(g, ws=ws)
+                except (SRConflicts, RRConflicts):
+                    continue
+                except Exception as e:
+                    res["evaluations"] += 1
+                    res["violations"].append({"kind": "ws-parameter-rejected", "case": {"grammar": gtxt, "ws": ws, "parser": kind},
+                                              "observed": type(e).__name__ + ": " + str(e)[:100]})
+                    continue
+                # skip tables on texts over an alphabet containing every special character
+                b = Batch()
+                checks = []
+                for k in range(12):
+                    text = "".join(rng.choice(alphabet + ws) for _ in range(rng.randint(0, 9)))
+                    q = b.add("skipws", len(ws), [ord(c) for c in ws], len(text), [ord(c) for c in text])
+                    checks.append((text, q, skip_table(p, text)))
+                out = b.run()
+                for text, q, sk in checks:
+                    st["skip_tables"] += 1
+                    res["evaluations"] += 1
+                    if out[q] != "skipws " + " ".join(map(str, sk)):
+                        res["disagreements"].append({"case": {"input": text, "ws": ws}, "model": out[q][:200],
+                                                     "impl": " ".join(map(str, sk))[:200], "what": "skip table"})
+                        res["violations"].append({"kind": "ws-parameter-not-skipped-as-a-character-set",
+                                                  "case": {"grammar": gtxt, "ws": ws, "input": text, "parser": kind},
+                                                  "observed": sk, "expected": out[q]})
+                # sentences with ws characters between the tokens (only when no token contains a ws character)
+                if any(c in "".join(toks) for c in ws):
+                    continue
+                for n in range(1, 5):
+                    for combo in itertools.product(toks, repeat=n):
+                        plain = p0_accepts(g, kind, "".join(combo), combo)
+                        if plain is None:
+                            continue
+                        text = rng.choice(fill).join(combo) + rng.choice(fill + [""])
+                        case = {"grammar": gtxt, "ws": ws, "parser": kind, "input": text,
+                                "tokens": list(combo)}
+                        try:
+                            with budget(1):
+                                p.parse(text)
+                            got = True
+                        except parglare.exceptions.ParglareError:
+                            got = False
+                        except BudgetExceeded:
+                            continue
+                        res["evaluations"] += 1
+                        st["pairs"] += 1
+                        res["nontrivial"].append(h16(case))
+                        if got != plain:
+                            res["violations"].append({"kind": "layout-changes-acceptance", "case": case,
+                                                      "observed": got, "expected": plain})
+    return res
+
+
+_P0 = {}
+
+
+def p0_accepts(g, kind, text, combo):
+    """Is the token sequence a sentence (same grammar, ws=None, tokens separated by nothing)? None if the
+    concatenation would tokenise differently (then the comparison says nothing)."""
+    key = (id(g), kind)
+    if key not in _P0:
+        _P0[key] = Parser(g, ws=None, build_tree=True) if kind == "LR" else GLRParser(g, ws=None)
+    p0 = _P0[key]
+    try:
+        with budget(1):
+            r = p0.parse(text)
+    except parglare.exceptions.ParglareError:
+        return False
+    except BudgetExceeded:
+        return None
+    t = r if kind == "LR" else r[0]
+    leaves = []
+
+    def walk(n):
+        if n.is_term():
+            leaves.append(n.value)
+        else:
+            for c in n.children:
+                walk(c)
+    walk(t)
+    return True if leaves == list(combo) else None
 
 
 def observe(p, num, text, is_glr):
     """(kind, shape, token sequence / token index of the error)."""
     try:
-        with budget(2):
+        with budget(0.5):
             r = p.parse(text)
             if is_glr:
                 n = r.solutions
@@ -88,6 +195,8 @@ def run_unit(u):
            "stats": {"pairs": 0, "ws_vs_layout": 0, "skip_tables": 0, "modes": {}, "traces": 0, "build_errors": {}}}
     rng = random.Random(u["seed"])
     st = res["stats"]
+    if u.get("kind") == "custom-ws":
+        return run_custom_ws(u, res)
     for sj in u["specs"]:
         spec = gen.GSpec.from_json(sj)
         base = list(gen.token_strings(spec, u["maxtok"]))[:60]
@@ -139,7 +248,11 @@ def run_unit(u):
                         if out[q] != "skipws " + " ".join(map(str, sk)):
                             res["disagreements"].append({"case": {"input": text, "ws": p.ws}, "model": out[q][:200],
                                                          "impl": " ".join(map(str, sk))[:200], "what": "skip table"})
+                n_timeouts = 0
                 for t in base:
+                    if n_timeouts >= 3:
+                        bump(st, "parsers_dropped_after_timeouts")
+                        break           # diverging parser (cyclic grammar): not this property's subject
                     a = t
                     b_ = gen.with_layout(rng, t, fillers)
                     c_ = gen.with_layout(rng, t, fillers)
@@ -153,6 +266,7 @@ def run_unit(u):
                         res["evaluations"] += 1
                         st["pairs"] += 1
                         if "timeout" in (oa[0], ob[0]):
+                            n_timeouts += 1
                             continue
                         if oa[0] != ob[0]:
                             res["violations"].append({"kind": "layout-changes-acceptance", "case": case,
@@ -203,7 +317,10 @@ def run_unit(u):
             except Exception:
                 pass
             for p0, p1, is_glr in pairs:
+                n_timeouts = 0
                 for t in base[::2]:
+                    if n_timeouts >= 3:
+                        break
                     text = gen.with_layout(rng, t, [" ", "  ", "\n", "\t "])
                     case = {"grammar": spec.text(), "layout_rule": lay, "parser": "GLR" if is_glr else "LR",
                             "input": text}
@@ -211,6 +328,8 @@ def run_unit(u):
                     r1 = full_observe(p1, n1, text, is_glr)
                     res["evaluations"] += 1
                     st["ws_vs_layout"] += 1
+                    if "timeout" in (r0[0], r1[0]):
+                        n_timeouts += 1
                     if r0 != r1 and "timeout" not in (r0[0], r1[0]):
                         res["violations"].append({"kind": "layout-rule-differs-from-ws-parameter", "case": case,
                                                   "observed": [str(r1)[:200]], "expected": [str(r0)[:200]]})
@@ -252,7 +371,7 @@ def full_observe(p, num, text, is_glr):
         return ("N", n.production.symbol.name, n.start_position, n.end_position,
                 tuple(walk(c) for c in n))
     try:
-        with budget(2):
+        with budget(0.5):
             r = p.parse(text)
             if is_glr:
                 return ("ok", r.solutions, walk(r[0]))
